@@ -166,6 +166,7 @@ class AppEnv:
                 models.User.get_guest_user()
                 models.db.session.commit()
         self.stored: dict[tuple[str, str], bytes] = {}   # (directory, name) -> file bytes
+        self.defaults_form: dict[str, dict] = {}          # directory -> saved per-stream defaults (cgi form)
 
     # ------------------------------------------------------------------ lifecycle
     def close(self) -> None:
@@ -291,9 +292,11 @@ class AppEnv:
             stored = self.models.Stream.get(pk=spk).defaults
         if not stored:
             raise RuntimeError(f'stream defaults were not stored: {stored!r}')
+        self.defaults_form[directory] = dict(form)
         return dict(stored)
 
-    DEFAULTS_FORM = {'depth': '2400', 'events': 'ping', 'bugs': 'saio',
+    # (no bugs=saio here: that default would switch the saio check of C03 off for the whole stream)
+    DEFAULTS_FORM = {'depth': '2400', 'events': 'ping', 'leeway': '9',
                      'playready__la_url': 'https://lic.dflt.example.test/pr?a=1'}
 
     def add_defaults_stream(self, directory: str = 'dflt', prefix: str = 'dfl') -> dict:
